@@ -286,7 +286,8 @@ def generate_dependent_dispatch(tup, handlers, next_call, slf, name, err, nerr):
 
     else:
         for i, conj in enumerate(conjs):
-            body.append(f"{local(f'MATCH{i}')} = {conj}")
+            # (the truth value: a condition may return any object)
+            body.append(f"{local(f'MATCH{i}')} = bool({conj})")
 
         summation = " + ".join(
             local(f"MATCH{i}") for i in range(len(handlers))
